@@ -199,7 +199,7 @@ func c40ChildMetricsScrape() {
 	}
 	stop := make(chan struct{})
 	var wg sync.WaitGroup
-	for k := 0; k < 4; k++ {
+	for k := 0; k < 8; k++ {
 		wg.Add(1)
 		go func() {
 			defer wg.Done()
@@ -213,7 +213,7 @@ func c40ChildMetricsScrape() {
 			}
 		}()
 	}
-	for i := 0; i < 40; i++ {
+	for i := 0; i < 200; i++ {
 		// one client, strictly sequential edits (each one waited for): only the scrapes are concurrent
 		w.api(http.MethodPatch, "/v3/config/global/patch", fmt.Sprintf(`{"writeQueueSize":%d}`, 256<<(i%3))) //nolint:errcheck
 		w.barrier()
